@@ -37,8 +37,8 @@ CHECKS = {
   design="DESIGN.md §5 C06, Appendix A"),
  "C07": dict(
   technique="runtime monitor: panic capture around every execution step of accepted programs (incl. boundary-literal programs) under three host modes, on an overflow-checking build and a release build",
-  text="Every accepted input of the corpus plus every program `a op b` / `op a` / `a op` over 57 boundary literals (i32 limits, huge/tiny/infinite floats, empty and multi-byte text, out-of-range indexes, ranges and slices incl. bounds at i32::MAX-1, negative starts, a float bound of 1e300, reversed ranges, concatenations holding such slices) and 36 binary / 13 unary operators, and random two-operator programs over the same pool, are executed step by step on both stores with no host, a declining host and an accepting host under a step budget and a store-call budget; any unwinding is a violation. Runs under the `mon` (overflow-checks, debug-assertions) and `release` profiles. The repository's own tests/scripts/*.garnish files (whole, and cut into prefixes / suffixes) are part of the corpus.",
-  note="Err results are acceptable; aborts are caught by the driver's crash path",
+  text="Every accepted input of the corpus plus every program `a op b` / `op a` / `a op` over 57 boundary literals (i32 limits, huge/tiny/infinite floats, empty and multi-byte text, out-of-range indexes, ranges and slices incl. bounds at i32::MAX-1, negative starts, a float bound of 1e300, reversed ranges, concatenations holding such slices) and 36 binary / 13 unary operators, and random two-operator programs over the same pool, are executed step by step on both stores with no host, a declining host and an accepting host under a step budget and a store-call budget; any unwinding is a violation. Deeply nested data: 7 value shapes nested 64..4000 (100 000) levels deep x 18 operations x both stores, each in a child process on a 2 MiB thread stack, where a stack overflow (abort) is a violation as well. Runs under the `mon` (overflow-checks, debug-assertions) and `release` profiles. The repository's own tests/scripts/*.garnish files (whole, and cut into prefixes / suffixes) are part of the corpus.",
+  note="Err results are acceptable; aborts are caught by the driver's crash path and, for the deep-data cases, read from the child's exit status; unoptimised (opt-level 0) builds are not exercised",
   design="DESIGN.md §5 C07"),
  "C13": dict(
   technique="runtime monitor: reference-model oracle (independent position-based maximal-munch scanner over a pinned token table) + offline checks of the recorded token vector (losslessness, positions)",
